@@ -10,7 +10,7 @@ PYTHONPATH=/repo /venv/bin/python "$seed/demo.py" >/tmp/seed_demo_clean.log 2>&1
 git apply "$seed/patch.diff"
 trap 'git -C /repo checkout -- . ' EXIT
 PYTHONPATH=/repo /venv/bin/python "$seed/demo.py" >/tmp/seed_demo_mut.log 2>&1; echo "demo with change: exit $? ($(tail -1 /tmp/seed_demo_mut.log | cut -c1-200))"
-cd /verif && ./check "$prop" --no-evidence "$@" > /tmp/seed_check.log 2>&1; rc=$?
+cd /verif && timeout 1200 ./check "$prop" --no-evidence "$@" > /tmp/seed_check.log 2>&1; rc=$?
 echo "check exit $rc; $(grep -c '^VIOLATION' /tmp/seed_check.log) VIOLATION lines; $(grep -c '^HARNESS-ERROR' /tmp/seed_check.log) harness errors"
 grep -A1 '^VIOLATION' /tmp/seed_check.log | grep -v '^--' | head -6 | cut -c1-260
 grep '^HARNESS-ERROR' /tmp/seed_check.log | head -3 | cut -c1-300
